@@ -461,3 +461,36 @@ def chrono_boundary(cfg):
     cfg.ctor_ext["std::chrono::duration"] = lambda em, node, args: (em.expr(args[0]) if args else "0")
     cfg.ext_methods["std::chrono::duration::operator="] = lambda em, recv, args, n: "%s = %s" % (recv, em.expr(args[0]))
     cfg.ext_methods["std::chrono::duration::count"] = lambda em, recv, args, n: recv
+
+
+# ---------------------------------------------------------------------------------------------
+# context boundary: Context is a one-word value (identity of its head node); equality compares that identity
+def _uptr_token(em, base, targs, name):
+    if base in ("nostd::unique_ptr", "unique_ptr") and targs and targs[0].strip().endswith("Token"):
+        inner = em._ctype(targs[0])
+        return CT(inner.base, inner.ptr + 1)
+    return None
+
+
+def context_boundary(cfg):
+    cfg.type_handlers.append(_uptr_token)
+    cfg.ctor_ext["nostd::unique_ptr"] = lambda em, node, args: (em.expr(args[0]) if args else "NULL")
+    cfg.type_handlers.append(_handle_type)
+    cfg.ctor_ext["nostd::shared_ptr"] = _handle_ctor
+    cfg.value_classes |= {"Context", "Token"}
+    # nostd::shared_ptr<T>::operator== (a template over two shared_ptr): identity comparison of the handles
+    cfg.ext_q["nostd::operator=="] = lambda em, node, recv, args: "(%s.id == %s.id)" % (em.pexpr_post(args[0]), em.pexpr_post(args[1]))
+    cfg.ext_q["ThreadLocalContextStorage::GetStack"] = lambda em, node, recv, args: "g_stack"
+    cfg.ext["new"] = _ctx_new
+
+
+def _ctx_new(em, n):
+    t = n["type"].get("qualType", "")
+    if n.get("isArray") and "Context" in t:
+        size = [c for c in n.get("inner", []) if c.get("kind") and c["kind"] != "CXXConstructExpr"]
+        em.report["new Context[n] -> xc_new_Context_array (assumed contract: fresh array of default contexts)"] += 1
+        return "xc_new_Context_array(%s)" % em.expr(size[0])
+    if "Token" in t:
+        cx = [c for c in n.get("inner", []) if c.get("kind") == "CXXConstructExpr"][-1]
+        return "xc_new_Token(%s)" % ", ".join(em.expr(a) for a in cx.get("inner", []))
+    raise ExtractionError("new-expression of %s not supported" % t)
